@@ -36,7 +36,7 @@ func harnessBug(t interface{ Fatalf(string, ...interface{}) }, prop, format stri
 }
 
 // the reference encoder may drop or add a container type at statically typed positions
-var c03Strict = av.Options{IgnoreListType: true, IgnoreMapType: true, EmptyContainerNull: true}
+var c03Strict = av.Options{IgnoreListType: true, IgnoreMapType: true, EmptyContainerNull: true, NullEmptyString: true}
 
 // c03One: decode(refEncode(value, choices)) must equal decode(goEncode(value)).
 // Returns (nonCanonicalChoices, skipped, failure).
